@@ -10,6 +10,12 @@ Base/Bytes.vos Base/Bytes.vok Base/Bytes.required_vos: Base/Bytes.v Base/Prelude
 Gen/JumpGen.vo Gen/JumpGen.glob Gen/JumpGen.v.beautified Gen/JumpGen.required_vo: Gen/JumpGen.v Base/Wrap.vo
 Gen/JumpGen.vio: Gen/JumpGen.v Base/Wrap.vio
 Gen/JumpGen.vos Gen/JumpGen.vok Gen/JumpGen.required_vos: Gen/JumpGen.v Base/Wrap.vos
+Gen/Wrappers.vo Gen/Wrappers.glob Gen/Wrappers.v.beautified Gen/Wrappers.required_vo: Gen/Wrappers.v 
+Gen/Wrappers.vio: Gen/Wrappers.v 
+Gen/Wrappers.vos Gen/Wrappers.vok Gen/Wrappers.required_vos: Gen/Wrappers.v 
+Gen/ProxyFacts.vo Gen/ProxyFacts.glob Gen/ProxyFacts.v.beautified Gen/ProxyFacts.required_vo: Gen/ProxyFacts.v 
+Gen/ProxyFacts.vio: Gen/ProxyFacts.v 
+Gen/ProxyFacts.vos Gen/ProxyFacts.vok Gen/ProxyFacts.required_vos: Gen/ProxyFacts.v 
 Model/Limiter.vo Model/Limiter.glob Model/Limiter.v.beautified Model/Limiter.required_vo: Model/Limiter.v Base/Prelude.vo
 Model/Limiter.vio: Model/Limiter.v Base/Prelude.vio
 Model/Limiter.vos Model/Limiter.vok Model/Limiter.required_vos: Model/Limiter.v Base/Prelude.vos
@@ -34,6 +40,12 @@ Model/Admin.vos Model/Admin.vok Model/Admin.required_vos: Model/Admin.v Base/Pre
 Model/RespWriter.vo Model/RespWriter.glob Model/RespWriter.v.beautified Model/RespWriter.required_vo: Model/RespWriter.v Base/Prelude.vo
 Model/RespWriter.vio: Model/RespWriter.v Base/Prelude.vio
 Model/RespWriter.vos Model/RespWriter.vok Model/RespWriter.required_vos: Model/RespWriter.v Base/Prelude.vos
+Model/Proxy.vo Model/Proxy.glob Model/Proxy.v.beautified Model/Proxy.required_vo: Model/Proxy.v Base/Prelude.vo Base/Bytes.vo
+Model/Proxy.vio: Model/Proxy.v Base/Prelude.vio Base/Bytes.vio
+Model/Proxy.vos Model/Proxy.vok Model/Proxy.required_vos: Model/Proxy.v Base/Prelude.vos Base/Bytes.vos
+Model/Chain.vo Model/Chain.glob Model/Chain.v.beautified Model/Chain.required_vo: Model/Chain.v Base/Prelude.vo Base/Bytes.vo
+Model/Chain.vio: Model/Chain.v Base/Prelude.vio Base/Bytes.vio
+Model/Chain.vos Model/Chain.vok Model/Chain.required_vos: Model/Chain.v Base/Prelude.vos Base/Bytes.vos
 Proofs/LimiterProofs.vo Proofs/LimiterProofs.glob Proofs/LimiterProofs.v.beautified Proofs/LimiterProofs.required_vo: Proofs/LimiterProofs.v Base/Prelude.vo Model/Limiter.vo
 Proofs/LimiterProofs.vio: Proofs/LimiterProofs.v Base/Prelude.vio Model/Limiter.vio
 Proofs/LimiterProofs.vos Proofs/LimiterProofs.vok Proofs/LimiterProofs.required_vos: Proofs/LimiterProofs.v Base/Prelude.vos Model/Limiter.vos
@@ -55,6 +67,12 @@ Proofs/AdminProofs.vos Proofs/AdminProofs.vok Proofs/AdminProofs.required_vos: P
 Proofs/WriterProofs.vo Proofs/WriterProofs.glob Proofs/WriterProofs.v.beautified Proofs/WriterProofs.required_vo: Proofs/WriterProofs.v Base/Prelude.vo Model/RespWriter.vo
 Proofs/WriterProofs.vio: Proofs/WriterProofs.v Base/Prelude.vio Model/RespWriter.vio
 Proofs/WriterProofs.vos Proofs/WriterProofs.vok Proofs/WriterProofs.required_vos: Proofs/WriterProofs.v Base/Prelude.vos Model/RespWriter.vos
+Proofs/ProxyProofs.vo Proofs/ProxyProofs.glob Proofs/ProxyProofs.v.beautified Proofs/ProxyProofs.required_vo: Proofs/ProxyProofs.v Base/Prelude.vo Base/Bytes.vo Model/Proxy.vo Gen/Wrappers.vo Gen/ProxyFacts.vo
+Proofs/ProxyProofs.vio: Proofs/ProxyProofs.v Base/Prelude.vio Base/Bytes.vio Model/Proxy.vio Gen/Wrappers.vio Gen/ProxyFacts.vio
+Proofs/ProxyProofs.vos Proofs/ProxyProofs.vok Proofs/ProxyProofs.required_vos: Proofs/ProxyProofs.v Base/Prelude.vos Base/Bytes.vos Model/Proxy.vos Gen/Wrappers.vos Gen/ProxyFacts.vos
+Proofs/ChainProofs.vo Proofs/ChainProofs.glob Proofs/ChainProofs.v.beautified Proofs/ChainProofs.required_vo: Proofs/ChainProofs.v Base/Prelude.vo Base/Bytes.vo Model/Chain.vo
+Proofs/ChainProofs.vio: Proofs/ChainProofs.v Base/Prelude.vio Base/Bytes.vio Model/Chain.vio
+Proofs/ChainProofs.vos Proofs/ChainProofs.vok Proofs/ChainProofs.required_vos: Proofs/ChainProofs.v Base/Prelude.vos Base/Bytes.vos Model/Chain.vos
 Cases/LimiterCase.vo Cases/LimiterCase.glob Cases/LimiterCase.v.beautified Cases/LimiterCase.required_vo: Cases/LimiterCase.v Base/Prelude.vo Model/Limiter.vo
 Cases/LimiterCase.vio: Cases/LimiterCase.v Base/Prelude.vio Model/Limiter.vio
 Cases/LimiterCase.vos Cases/LimiterCase.vok Cases/LimiterCase.required_vos: Cases/LimiterCase.v Base/Prelude.vos Model/Limiter.vos
@@ -73,6 +91,12 @@ Cases/AdminCase.vos Cases/AdminCase.vok Cases/AdminCase.required_vos: Cases/Admi
 Cases/WriterCase.vo Cases/WriterCase.glob Cases/WriterCase.v.beautified Cases/WriterCase.required_vo: Cases/WriterCase.v Base/Prelude.vo Base/Bytes.vo Model/RespWriter.vo
 Cases/WriterCase.vio: Cases/WriterCase.v Base/Prelude.vio Base/Bytes.vio Model/RespWriter.vio
 Cases/WriterCase.vos Cases/WriterCase.vok Cases/WriterCase.required_vos: Cases/WriterCase.v Base/Prelude.vos Base/Bytes.vos Model/RespWriter.vos
+Cases/WireCase.vo Cases/WireCase.glob Cases/WireCase.v.beautified Cases/WireCase.required_vo: Cases/WireCase.v Base/Prelude.vo Base/Bytes.vo Model/Proxy.vo
+Cases/WireCase.vio: Cases/WireCase.v Base/Prelude.vio Base/Bytes.vio Model/Proxy.vio
+Cases/WireCase.vos Cases/WireCase.vok Cases/WireCase.required_vos: Cases/WireCase.v Base/Prelude.vos Base/Bytes.vos Model/Proxy.vos
+Cases/ChainCase.vo Cases/ChainCase.glob Cases/ChainCase.v.beautified Cases/ChainCase.required_vo: Cases/ChainCase.v Base/Prelude.vo Base/Bytes.vo Model/Chain.vo
+Cases/ChainCase.vio: Cases/ChainCase.v Base/Prelude.vio Base/Bytes.vio Model/Chain.vio
+Cases/ChainCase.vos Cases/ChainCase.vok Cases/ChainCase.required_vos: Cases/ChainCase.v Base/Prelude.vos Base/Bytes.vos Model/Chain.vos
 Props/C09.vo Props/C09.glob Props/C09.v.beautified Props/C09.required_vo: Props/C09.v Base/Prelude.vo Model/Limiter.vo Proofs/LimiterProofs.vo
 Props/C09.vio: Props/C09.v Base/Prelude.vio Model/Limiter.vio Proofs/LimiterProofs.vio
 Props/C09.vos Props/C09.vok Props/C09.required_vos: Props/C09.v Base/Prelude.vos Model/Limiter.vos Proofs/LimiterProofs.vos
@@ -112,3 +136,12 @@ Props/C14.vos Props/C14.vok Props/C14.required_vos: Props/C14.v Base/Prelude.vos
 Props/C15.vo Props/C15.glob Props/C15.v.beautified Props/C15.required_vo: Props/C15.v Base/Prelude.vo Model/RespWriter.vo Proofs/WriterProofs.vo
 Props/C15.vio: Props/C15.v Base/Prelude.vio Model/RespWriter.vio Proofs/WriterProofs.vio
 Props/C15.vos Props/C15.vok Props/C15.required_vos: Props/C15.v Base/Prelude.vos Model/RespWriter.vos Proofs/WriterProofs.vos
+Props/C16.vo Props/C16.glob Props/C16.v.beautified Props/C16.required_vo: Props/C16.v Base/Prelude.vo Base/Bytes.vo Model/Proxy.vo Proofs/ProxyProofs.vo
+Props/C16.vio: Props/C16.v Base/Prelude.vio Base/Bytes.vio Model/Proxy.vio Proofs/ProxyProofs.vio
+Props/C16.vos Props/C16.vok Props/C16.required_vos: Props/C16.v Base/Prelude.vos Base/Bytes.vos Model/Proxy.vos Proofs/ProxyProofs.vos
+Props/C01.vo Props/C01.glob Props/C01.v.beautified Props/C01.required_vo: Props/C01.v Base/Prelude.vo Base/Bytes.vo Model/Proxy.vo Proofs/ProxyProofs.vo Gen/Wrappers.vo Gen/ProxyFacts.vo
+Props/C01.vio: Props/C01.v Base/Prelude.vio Base/Bytes.vio Model/Proxy.vio Proofs/ProxyProofs.vio Gen/Wrappers.vio Gen/ProxyFacts.vio
+Props/C01.vos Props/C01.vok Props/C01.required_vos: Props/C01.v Base/Prelude.vos Base/Bytes.vos Model/Proxy.vos Proofs/ProxyProofs.vos Gen/Wrappers.vos Gen/ProxyFacts.vos
+Props/C17.vo Props/C17.glob Props/C17.v.beautified Props/C17.required_vo: Props/C17.v Base/Prelude.vo Base/Bytes.vo Model/Chain.vo Proofs/ChainProofs.vo Model/Proxy.vo Proofs/ProxyProofs.vo
+Props/C17.vio: Props/C17.v Base/Prelude.vio Base/Bytes.vio Model/Chain.vio Proofs/ChainProofs.vio Model/Proxy.vio Proofs/ProxyProofs.vio
+Props/C17.vos Props/C17.vok Props/C17.required_vos: Props/C17.v Base/Prelude.vos Base/Bytes.vos Model/Chain.vos Proofs/ChainProofs.vos Model/Proxy.vos Proofs/ProxyProofs.vos
